@@ -39,6 +39,8 @@ M = [
  ("c14-strip-ord-always", ["C14"], IT, '"ord" => self.is_match_cmp_attr(CompareOp::Ord),', '"ord" => true,'),
  ("c14-forget-variant-fields", ["C14"], IT, "        remove_attrs(&mut variant.attrs, &kinds);\n        for field in &mut variant.fields {\n            remove_attrs(&mut field.attrs, &kinds)\n        }", "        remove_attrs(&mut variant.attrs, &kinds);"),
  ("c14-item-after-tokens", ["C14"], LB, "Ok(quote!(#item #ts))", "Ok(quote!(#ts #item))"),
+ ("c14-entry-error-drops-item", ["C14"], LB, "            item.extend(e.to_compile_error());\n            item\n", "            e.to_compile_error()\n"),
+ ("c14-build-error-propagates", ["C14"], LB, "    .unwrap_or_else(|e| e.to_compile_error());\n\n    Ok(quote!(#item #ts))", "    ?;\n\n    Ok(quote!(#item #ts))"),
  ("c14-vis-mutation", ["C14"], IT, "    let result = build_by_item_struct_core(Some(attr), item, &mut kinds);\n    remove_attrs(&mut item.attrs, &kinds);", "    let result = build_by_item_struct_core(Some(attr), item, &mut kinds);\n    item.attrs.clear();\n    remove_attrs(&mut item.attrs, &kinds);"),
  ("c15-attr-after-attrs", ["C15"], IT, "        if let Some(attr) = attr {\n            args_list.push(parse2(attr)?);\n        }\n        args_list.extend(parse_derive_ex_attrs(attrs)?);", "        args_list.extend(parse_derive_ex_attrs(attrs)?);\n        if let Some(attr) = attr {\n            args_list.push(parse2(attr)?);\n        }"),
  ("c15-derive-kinds", ["C15"], IT, "fn build_from_derive_input(item: DeriveInput) -> Result<TokenStream> {\n    let mut kinds = HelperAttributeKinds::new(true);", "fn build_from_derive_input(item: DeriveInput) -> Result<TokenStream> {\n    let mut kinds = HelperAttributeKinds::new(false);"),
